@@ -37,7 +37,7 @@ def _fin(D, p):
 
 def _domain(c, maxsym, w):
     if maxsym <= 255:
-        return z3.BoolVal(True)
+        return z3.BoolVal(True) if w == 8 else z3.ULE(c, z3.BitVecVal(255, w))
     return z3.And(z3.ULE(c, z3.BitVecVal(0x10FFFF, w)),
                   z3.Or(z3.ULT(c, z3.BitVecVal(0xD800, w)), z3.UGT(c, z3.BitVecVal(0xDFFF, w))))
 
@@ -77,7 +77,7 @@ def inductive(A, B, R, mode, label, stats, cross=False):
     """Returns 'unsat' (certificate holds), 'sat' (R is not a certificate) or
     'unknown'."""
     maxsym = min(A.maxsym, B.maxsym)
-    w = sym_width(maxsym)
+    w = sym_width(max(A.maxsym, B.maxsym))
     p, q = z3.BitVec('p', SW), z3.BitVec('q', SW)
     c = z3.BitVec('c', w)
     pairs = _pairs_to_bv(R, A, B)
@@ -100,7 +100,7 @@ def bounded(A, B, K, mode, label, stats, cross=False):
     """Symbolic string of length <= K through both automata.  Returns
     (result, witness symbols or None)."""
     maxsym = min(A.maxsym, B.maxsym)
-    w = sym_width(maxsym)
+    w = sym_width(max(A.maxsym, B.maxsym))
     s = z3.Solver()
     cs = [z3.BitVec('c%d' % i, w) for i in range(K)]
     ln = z3.BitVec('len', 8)
@@ -126,3 +126,32 @@ def bounded(A, B, K, mode, label, stats, cross=False):
         n = m.eval(ln, model_completion=True).as_long()
         return 'sat', [m.eval(cs[i], model_completion=True).as_long() for i in range(n)]
     return str(r), None
+
+
+def accepting_sample(A, K, label, stats):
+    """A solver-produced accepted string of length exactly K (or None)."""
+    w = sym_width(A.maxsym)
+    s = z3.Solver()
+    cs = [z3.BitVec('c%d' % i, w) for i in range(K)]
+    p = z3.BitVecVal(A.init, SW)
+    for i in range(K):
+        s.add(_domain(cs[i], A.maxsym, w))
+        pi = z3.BitVec('p%d' % (i + 1), SW)
+        s.add(pi == _delta(A, p, cs[i], w))
+        p = pi
+    s.add(_fin(A, p))
+    r = _check(s, False, label, stats)
+    if r == z3.sat:
+        m = s.model()
+        return [m.eval(c, model_completion=True).as_long() for c in cs]
+    return None
+
+
+def no_symbol_above(A, limit, label, stats):
+    """unsat <=> no state of A has a live transition on a symbol > limit."""
+    w = sym_width(A.maxsym)
+    p = z3.BitVec('p', SW)
+    c = z3.BitVec('c', w)
+    s = z3.Solver()
+    s.add(z3.ULT(p, z3.BitVecVal(A.n, SW)), z3.UGT(c, z3.BitVecVal(limit, w)), _delta(A, p, c, w) != z3.BitVecVal(A.n, SW))
+    return str(_check(s, False, label, stats))
